@@ -15,6 +15,7 @@ import z3
 from vt.e1.values import (SArr, SList, STT, SNum, SMaxRank, SInf, INF, SNone, NONE, SOpt, SFunc, SModule, SExc, Unsupported,
                           fresh, fresh_fun, zi, zb, as_conc, is_conc_int, val_ite, arr_ite)
 from vt.e1 import npmodel
+from vt.e1.values import is_tag
 
 
 class Obligation:
@@ -94,6 +95,7 @@ def _clone(v, memo):
         if id(v) in memo:
             return memo[id(v)]
         n = SList(v.ref, v.length, v.fn, None, v.kind)
+        n.transient = getattr(v, 'transient', None)
         memo[id(v)] = n
         if v.items is not None:
             n.items = [_clone(x, memo) for x in v.items]
@@ -323,6 +325,12 @@ class Executor:
             key = 'while %s' % ast.unparse(node.test)
         inv = ctx.contract.invariant(key, ctx.inst)
         if inv is None:
+            # fallback: the loop header was edited; attach the invariant registered for the loop's ordinal position
+            ordinal = getattr(ctx, 'loop_ordinals', {}).get(id(node))
+            canon = getattr(ctx.contract, 'loop_ordinals', {}).get(ordinal)
+            if canon is not None:
+                inv = ctx.contract.invariant(canon, ctx.inst)
+        if inv is None:
             # no invariant supplied: try full unrolling when the trip count is concrete and small
             if kind == 'for':
                 return self.unroll_for(node, state, key)
@@ -537,7 +545,7 @@ class Executor:
             base = self.ev(tgt.value, state)
             if isinstance(base, SList):
                 idx = self.ev(tgt.slice, state)
-                if isinstance(idx, tuple) and idx and idx[0] == 'slice':
+                if is_tag(idx, 'slice'):
                     raise Unsupported('slice assignment to a list at line %d' % node.lineno)
                 i = self.norm_index(base, idx, state, node.lineno)
                 self.frame_list(base, state, node.lineno)
@@ -693,7 +701,7 @@ class Executor:
             return ('method', obj, a)
         if isinstance(obj, SList):
             return ('method', obj, a)
-        if isinstance(obj, tuple) and obj and obj[0] == 'TTclass':
+        if is_tag(obj, 'TTclass'):
             return ('ttfunc', a)
         raise Unsupported('attribute %s of %s at line %d' % (a, type(obj).__name__, node.lineno))
 
@@ -702,12 +710,12 @@ class Executor:
         idx = self.ev(node.slice, state)
         line = node.lineno
         if isinstance(base, SList):
-            if isinstance(idx, tuple) and idx and idx[0] == 'slice':
+            if is_tag(idx, 'slice'):
                 return self.list_slice(base, idx, state, line)
             i = self.norm_index(base, idx, state, line)
             v = base.get(i)
             return v
-        if isinstance(base, tuple) and base and base[0] == 'shape-of':
+        if is_tag(base, 'shape-of'):
             arr = base[1]
             c = as_conc(idx)
             if c is None or c >= len(arr.shape) or c < -len(arr.shape):
@@ -718,7 +726,7 @@ class Executor:
             self.ctx.oblige(state, 'index-in-range', line, c < zi(arr.ndim), 'shape[%d] of an array of unknown rank' % c)
             return arr.shape[c]
         if isinstance(base, tuple):
-            if isinstance(idx, tuple) and idx and idx[0] == 'slice':
+            if is_tag(idx, 'slice'):
                 lo = as_conc(idx[1]) if idx[1] is not None else None
                 hi = as_conc(idx[2]) if idx[2] is not None else None
                 if (idx[1] is not None and lo is None) or (idx[2] is not None and hi is None) or idx[3] is not None:
@@ -837,6 +845,13 @@ class Executor:
             r = self.equal(a, b, state, line)
             return (not r) if (neg and isinstance(r, bool)) else (z3.Not(r) if neg else r)
         if isinstance(op, (ast.Lt, ast.LtE, ast.Gt, ast.GtE)):
+            if isinstance(a, SArr) or isinstance(b, SArr):
+                arr = a if isinstance(a, SArr) else b
+                res = npmodel.new_arr(state, arr.shape, False, kind='bool')
+                # (descending non-negative vector / its first entry) > threshold : the true entries form a prefix
+                if isinstance(a, SArr) and getattr(a, 'descending_nonneg', False) and isinstance(op, (ast.Gt, ast.GtE)) and isinstance(b, SNum):
+                    res.prefix_mask = True
+                return res
             if isinstance(a, SNum) or isinstance(b, SNum):
                 # only  threshold >= 0  style tests occur
                 num, other = (a, b) if isinstance(a, SNum) else (b, a)
@@ -861,7 +876,7 @@ class Executor:
         if isinstance(a, str) or isinstance(b, str):
             if isinstance(a, str) and isinstance(b, str):
                 return a == b
-            if isinstance(a, tuple) and a and a[0] == 'dtype' or isinstance(b, tuple) and b and b[0] == 'dtype':
+            if is_tag(a, 'dtype') or is_tag(b, 'dtype'):
                 d, s = (a, b) if isinstance(a, tuple) else (b, a)
                 if s == 'complex':
                     return d[1].cplx
@@ -984,21 +999,31 @@ class Executor:
         if len(node.generators) != 1 or node.generators[0].ifs:
             raise Unsupported('nested/filtered comprehension at line %d' % node.lineno)
         g = node.generators[0]
-        if not (isinstance(g.iter, ast.Call) and isinstance(g.iter.func, ast.Name) and g.iter.func.id == 'range' and isinstance(g.target, ast.Name)):
-            raise Unsupported('comprehension over %s at line %d' % (ast.unparse(g.iter), node.lineno))
-        args = [self.ev(a, state) for a in g.iter.args]
-        lo, hi = (0, args[0]) if len(args) == 1 else (args[0], args[1])
-        if len(args) == 3:
-            raise Unsupported('comprehension with step at line %d' % node.lineno)
+        if not isinstance(g.target, ast.Name):
+            raise Unsupported('comprehension target at line %d' % node.lineno)
+        var = g.target.id
+        elem_of = None
+        if isinstance(g.iter, ast.Call) and isinstance(g.iter.func, ast.Name) and g.iter.func.id == 'range':
+            args = [self.ev(a, state) for a in g.iter.args]
+            lo, hi = (0, args[0]) if len(args) == 1 else (args[0], args[1])
+            if len(args) == 3:
+                raise Unsupported('comprehension with step at line %d' % node.lineno)
+        else:
+            src = self.ev(g.iter, state)
+            if not isinstance(src, SList):
+                raise Unsupported('comprehension over %s at line %d' % (ast.unparse(g.iter), node.lineno))
+            src = src.snapshot()
+            lo, hi = 0, src.length
+            elem_of = src
         lo, hi = zi(lo), zi(hi)
         n = z3.simplify(z3.If(hi > lo, hi - lo, z3.IntVal(0)))
-        var = g.target.id
         cn = as_conc(n)
         if cn is not None and cn <= 8:
             items = []
             saved = state.env.get(var)
             for k in range(cn):
-                state.env[var] = as_conc(z3.simplify(lo + k)) if as_conc(z3.simplify(lo + k)) is not None else lo + k
+                ik = as_conc(z3.simplify(lo + k)) if as_conc(z3.simplify(lo + k)) is not None else lo + k
+                state.env[var] = ik if elem_of is None else elem_of.get(ik)
                 items.append(self.ev(node.elt, state))
             if saved is not None:
                 state.env[var] = saved
@@ -1009,7 +1034,11 @@ class Executor:
         j = fresh(var)
         sub = state.clone()
         sub.assume(z3.And(lo <= j, j < hi))
-        sub.env[var] = j
+        if elem_of is not None:
+            elem_of.to_fn()
+            sub.env[var] = elem_of.fn(j)
+        else:
+            sub.env[var] = j
         m0 = fresh('cm')
         sub.mark = m0
         val = self.ev(node.elt, sub)
